@@ -14,6 +14,8 @@ type FnInfo struct {
 	ipdom    []int // block index -> immediate post-dominator block index, -1 = exit
 	firstNon []int // block index -> index of first non-phi instruction
 	noMerge  bool
+	liveOnce sync.Once
+	live     *liveInfo
 }
 
 type Program struct {
